@@ -1,4 +1,4 @@
-import Proofs.Store.NodeDBRollback
+import Proofs.Store.MultiDisk
 /-!
 # C08 — Rolling back to a height restores exactly that height's state
 
@@ -138,6 +138,156 @@ theorem rollback_replay_hashes (hH : HashOK H) (S : Tree → Prop) (hi : Inj H S
   refine ⟨rb, again, hrun, fun v => ⟨?_, ?_⟩⟩
   · rw [g2.disk.roots, gd.roots]
   · rw [getImmutable_good hH g2.disk hok2, getImmutable_good hH gd hok]
+
+/-! ## The whole multistore (`rootmulti.RollbackVersion`)
+
+`blocks`: any legal block history on a fresh DB (`GoodBlocks`), committed with arbitrary iteration
+orders; `s` the running store afterwards, `ids` the commit ids it reported.  A fresh store object
+rolls the disk back to `h`, `1 ≤ h < |blocks|`. -/
+
+/-- **The node rolled back to `h` is the node at height `h`.**  `RollbackVersion(h)` succeeds; a new
+store object then reports as `LastCommitID` the id committed at `h` and holds in every substore the
+tree saved at `h`; every version `v ≤ h` loads with its original commit id and trees; no version above
+`h` loads; and re-applying the blocks `h+1 …` (again with arbitrary iteration orders) reports exactly
+the original commit ids. -/
+theorem rollback_multistore (hH : HashOK H) (S : Tree → Prop) (hi : Inj H S) (names : List RootMulti.Name)
+    (hnd : names.Nodup) (blocks : List (List RootMulti.Name × (RootMulti.Name → Option Tree)))
+    (hb : GoodBlocks S names (fun _ => []) 0 blocks) (h : Nat) (h1 : 1 ≤ h) (hh : h < blocks.length)
+    (orders' : List (List RootMulti.Name)) (ho' : orders'.length = blocks.length - h)
+    (hord : ∀ o ∈ orders', IsOrder names o) :
+    ∃ s0 s ids back, openMS H (freshDisk names) names = some s0 ∧
+      runMS H s0 (blocks.map fun b => (b.1, fullBlock names b.2)) = some (s, ids) ∧
+      rollbackMS s.disk names h = some back ∧
+      -- restores
+      (∃ m, openMS H back.disk names = some m ∧ some m.lastCommitID = ids[h - 1]? ∧
+        (∀ n ∈ names, ∃ t, aget n m.stores = some t ∧ t.version = h ∧
+          some t.root = histAt (histsAfter (fun _ => []) blocks n) h) ∧
+        -- replay
+        ∃ again ids', runMS H m (((blocks.drop h).zip orders').map fun b => (b.2, fullBlock names b.1.2)) = some (again, ids') ∧
+          ids' = ids.drop h) ∧
+      -- keeps earlier
+      (∀ v : Int, 1 ≤ v → v ≤ h → ∃ m₁ m₂, loadMS H back.disk names v = some m₁ ∧ loadMS H s.disk names v = some m₂ ∧
+        m₁.lastCommitID = m₂.lastCommitID ∧
+        ∀ n ∈ names, ∃ t₁ t₂, aget n m₁.stores = some t₁ ∧ aget n m₂.stores = some t₂ ∧
+          t₁.version = t₂.version ∧ t₁.root = t₂.root) ∧
+      -- hides later
+      (∀ v : Int, (h : Int) < v → loadMS H back.disk names v = none) := by
+  obtain ⟨s0, h0, g0⟩ := openMS_fresh_good (H := H) S names hnd
+  obtain ⟨s, hrun, g⟩ := runMS_canon hH hi blocks _ 0 s0 g0 hb
+  simp only [Nat.zero_add] at g
+  have gd := g.disk
+  have hl : ∀ n ∈ names, (histsAfter (fun _ => []) blocks n).length = blocks.length :=
+    fun n hn => by obtain ⟨_, _, _, _, e⟩ := g.tree n hn; exact e
+  obtain ⟨back, hback, gb, hkeepci⟩ := rollbackMS_good hH hi gd hl h h1 hh
+  refine ⟨s0, s, _, back, h0, hrun, hback, ?_, ?_, ?_⟩
+  · -- reopen
+    obtain ⟨ci, hci, hopen⟩ := openMS_good hH gb h1
+    have hcanon : (canonIds (H := H) names 0 blocks)[h - 1]? = some (ci.commitID H) := by
+      -- the id reported at height h is the id of the commit info of h
+      obtain ⟨s2, ids2, hrun2, _, _, hids⟩ := runMS_ids hH hi blocks _ 0 s0 g0 hb
+      rw [hrun] at hrun2; cases hrun2
+      have hlen2 : (canonIds (H := H) names 0 blocks).length = blocks.length := by
+        obtain ⟨_, ids3, hrun3, _, hl3⟩ := runMS_good hH hi blocks _ 0 s0 g0 hb
+        rw [hrun] at hrun3; cases hrun3; exact hl3
+      have hlt : h - 1 < (canonIds (H := H) names 0 blocks).length := by omega
+      have := hids (h - 1) _ (List.getElem?_eq_getElem hlt)
+      have e : ((0 : Nat) : Int) + ((h - 1 : Nat) : Int) + 1 = (h : Int) := by omega
+      rw [e] at this
+      have hci2 : aget (h : Int) s.cinfos = some ci := by
+        have := hkeepci h (by omega)
+        rw [hci] at this; exact this.symm
+      rw [hci2] at this
+      simp only [Option.map_some, Option.some.injEq] at this
+      rw [List.getElem?_eq_getElem hlt, this]
+    refine ⟨_, hopen, hcanon.symm, ?_, ?_⟩
+    · intro n hn
+      refine ⟨recovered (back.disk.storeDB n) h ((histAt ((histsAfter (fun _ => []) blocks n).take h) h).getD none), ?_, rfl, ?_⟩
+      · rw [aget_map_names (fun n => recovered (back.disk.storeDB n) h ((histAt ((histsAfter (fun _ => []) blocks n).take h) h).getD none)) names n, if_pos hn]
+      · simp only [recovered]
+        rw [histAt_take]
+        simp only [Int.le_refl, if_true]
+        obtain ⟨r, hr⟩ := Option.isSome_iff_exists.mp ((histAt_some_iff (histsAfter (fun _ => []) blocks n) h).mpr ⟨by omega, by rw [hl n hn]; omega⟩)
+        rw [hr]; rfl
+    · -- the reopened store is a good multistore for the first h blocks: replay
+      have hsplit := GoodBlocks.split (blocks.take h) (blocks.drop h) (fun _ => []) 0 (by rw [List.take_append_drop]; exact hb)
+      have hlt : (blocks.take h).length = h := by simp; omega
+      have htake : ∀ n, histsAfter (fun _ => []) (blocks.take h) n = (histsAfter (fun _ => []) blocks n).take h := by
+        intro n
+        have := histsAfter_take blocks n (fun _ => []) h (by omega)
+        simpa using this
+      have gm : GoodMS H S names (fun n => (histsAfter (fun _ => []) blocks n).take h) h
+          ⟨ci.commitID H, names.map (fun n => (n, recovered (back.disk.storeDB n) h ((histAt ((histsAfter (fun _ => []) blocks n).take h) h).getD none))), back.disk.cinfos, back.disk.latest⟩ := by
+        refine ⟨hnd, by simp [List.map_map, Function.comp_def], ?_, gb.recs, ?_⟩
+        · intro n hn
+          obtain ⟨gdn, hokn, _⟩ := gb.store n hn
+          have hlen' : ((histsAfter (fun _ => []) blocks n).take h).length = h := by simp [hl n hn]; omega
+          have hne : (histsAfter (fun _ => []) blocks n).take h ≠ [] := by
+            intro e; rw [e] at hlen'; simp at hlen'; omega
+          obtain ⟨r, hr, _, hlast, gt⟩ := recover_before hH hi gdn hokn hne
+          rw [hlen'] at hr gt
+          refine ⟨recovered (back.disk.storeDB n) h ((histAt ((histsAfter (fun _ => []) blocks n).take h) h).getD none), ?_, ?_, hokn, hlen'⟩
+          · rw [aget_map_names (fun n => recovered (back.disk.storeDB n) h ((histAt ((histsAfter (fun _ => []) blocks n).take h) h).getD none)) names n, if_pos hn]
+          · rw [hr]; exact gt
+        · have : ¬ h = 0 := by omega
+          simp [this, hci]
+      have hblocks : GoodBlocks S names (fun n => (histsAfter (fun _ => []) blocks n).take h) h (blocks.drop h) := by
+        have := hsplit.2
+        rw [hlt] at this
+        simp only [Nat.zero_add] at this
+        have e : histsAfter (fun _ => []) (blocks.take h) = fun n => (histsAfter (fun _ => []) blocks n).take h := funext htake
+        rw [e] at this; exact this
+      -- change the iteration orders
+      have reorder : ∀ (bl : List (List RootMulti.Name × (RootMulti.Name → Option Tree))) (os : List (List RootMulti.Name))
+          (hs : RootMulti.Name → List (Option Tree)) (k : Nat), os.length = bl.length → (∀ o ∈ os, IsOrder names o) →
+          GoodBlocks S names hs k bl → GoodBlocks S names hs k ((bl.zip os).map fun b => (b.2, b.1.2)) ∧
+            canonIds (H := H) names k ((bl.zip os).map fun b => (b.2, b.1.2)) = canonIds (H := H) names k bl := by
+        intro bl
+        induction bl with
+        | nil => intro os hs k _ _ _; exact ⟨trivial, rfl⟩
+        | cons b bl ih =>
+          intro os hs k hlen hos hg
+          obtain ⟨o, nx⟩ := b
+          cases os with
+          | nil => simp at hlen
+          | cons o' os =>
+            obtain ⟨_, h2, h3⟩ := hg
+            obtain ⟨i1, i2⟩ := ih os _ _ (by simpa using hlen) (fun x hx => hos x (List.mem_cons_of_mem _ hx)) h3
+            exact ⟨⟨hos o' List.mem_cons_self, h2, i1⟩, by simp only [List.zip_cons_cons, List.map_cons, canonIds, i2]⟩
+      have hlo : orders'.length = (blocks.drop h).length := by simp [ho']
+      obtain ⟨gb2, hcan2⟩ := reorder (blocks.drop h) orders' _ h hlo hord hblocks
+      obtain ⟨again, hrun3, _⟩ := runMS_canon hH hi _ _ h _ gm gb2
+      refine ⟨again, canonIds (H := H) names h (((blocks.drop h).zip orders').map fun b => (b.2, b.1.2)), ?_, ?_⟩
+      · simpa [List.map_map, Function.comp_def] using hrun3
+      · rw [hcan2]
+        have := canonIds_append (H := H) names (blocks.take h) (blocks.drop h) 0
+        rw [List.take_append_drop, hlt, Nat.zero_add] at this
+        rw [this]
+        have hl5 : (canonIds (H := H) names 0 (blocks.take h)).length = h := by
+          have key : ∀ (l : List (List RootMulti.Name × (RootMulti.Name → Option Tree))) (k : Nat), (canonIds (H := H) names k l).length = l.length := by
+            intro l; induction l with
+            | nil => intro k; rfl
+            | cons b l ih => intro k; obtain ⟨o, nx⟩ := b; simp [canonIds, ih]
+          rw [key, hlt]
+        exact (List.drop_left' hl5).symm
+  · intro v hv1 hv2
+    obtain ⟨ci₁, hci₁, _, hl₁⟩ := loadMS_good hH gb v hv1 hv2
+    obtain ⟨ci₂, hci₂, _, hl₂⟩ := loadMS_good hH gd v hv1 (by omega)
+    have : ci₁ = ci₂ := by
+      have := hkeepci v hv2
+      have hcs : s.disk.cinfos = s.cinfos := rfl
+      rw [hci₁, hcs] at this
+      rw [hcs, ← this] at hci₂; cases hci₂; rfl
+    subst this
+    refine ⟨_, _, hl₁, hl₂, rfl, ?_⟩
+    intro n hn
+    refine ⟨recovered (back.disk.storeDB n) v ((histAt ((histsAfter (fun _ => []) blocks n).take h) v).getD none),
+            recovered (s.disk.storeDB n) v ((histAt (histsAfter (fun _ => []) blocks n) v).getD none), ?_, ?_, rfl, ?_⟩
+    · rw [aget_map_names (fun n => recovered (back.disk.storeDB n) v ((histAt ((histsAfter (fun _ => []) blocks n).take h) v).getD none)) names n, if_pos hn]
+    · rw [aget_map_names (fun n => recovered (s.disk.storeDB n) v ((histAt (histsAfter (fun _ => []) blocks n) v).getD none)) names n, if_pos hn]
+    · simp only [recovered]
+      rw [histAt_take]; simp [hv2]
+  · intro v hv
+    exact loadMS_none gb v (by omega) (by omega)
 
 /-! ## Non-vacuity: a three-version history over `H = id`, rolled back to 1 and to 2 -/
 private def l1 : Tree := .leaf [1] [10] 1
